@@ -89,10 +89,13 @@ def main():
 
 
 def relayout(text, rng):
+    """the same token sequence in a new layout: line breaks (LF / CRLF), indentation and comments - also comments with
+    characters of two and three UTF-8 bytes BEFORE a lexeme on its line, so that byte, character and UTF-16 offsets of
+    a label differ (BMP characters only: the column unit of the terminal and of the editor then agree)"""
     toks = text.split()
     out = [toks[0]]
     for t in toks[1:]:
-        out.append(rng.choice([" ", " ", "\n", "\n", "\n   ", "\r\n", "  \n", "\n\n"]))
+        out.append(rng.choice([" ", " ", "\n", "\n", "\n   ", "\r\n", "  \n", "\n\n", " (* \u00e9\u20ac *) ", "\n(* gr\u00f6\u00dfe *) ", " (* c *)\n"]))
         out.append(t)
     return "".join(out) + "\n"
 
